@@ -428,8 +428,16 @@ def check_capture(case):
     before = swap_logger(marker)
     seen = {}
     try:
+        assertion = case.get("assertion")
+
+        def own_assertion(test_case, logger):
+            # the test's own assertion about its logging, given to capture_logging
+            seen["assertion_ran"] = True
+            if assertion == "fail":
+                test_case.fail("generated logging assertion failure")
+
         class T(unittest.TestCase):
-            @capture_logging(None)
+            @capture_logging(own_assertion if assertion else None)
             def test(self, logger):
                 seen["logger"] = logger
                 seen["default_inside"] = _output._DEFAULT_LOGGER
@@ -447,6 +455,9 @@ def check_capture(case):
                         logger.flush_tracebacks(AppFailure)
                     elif s == "swap":
                         swap_logger(OTHER)
+                    elif s == "validate":
+                        # the test validates what was logged so far itself (documented use)
+                        logger.validate()
                 if final == "fail":
                     self.fail("generated failure")
                 if final == "error":
@@ -466,10 +477,25 @@ def check_capture(case):
     unflushed = 0
     invalid = 0
     dirty = False
+    body_error = False
+    validated_unflushed = False
+    ambiguous = False
     for s in steps:
+        if body_error:
+            break
+        if s == "validate":
+            if invalid:  # (acts on the captured logger object itself, whatever the default logger is by now)
+                body_error = True  # validate() raises inside the test body
+            if unflushed:
+                # validate() serialises the stored tracebacks in place; whether a later flush_tracebacks(E) still
+                # recognises them is not specified (on this tree it does not)
+                validated_unflushed = True
+            continue
         if s == "swap":
             dirty = True  # from here on the test's own logging goes to the logger it swapped in
         elif s == "flush":
+            if validated_unflushed and unflushed:
+                ambiguous = True
             unflushed = 0  # flushing acts on the captured logger object itself
         elif dirty:
             continue
@@ -479,8 +505,20 @@ def check_capture(case):
             invalid += 1
     cleanup_error = unflushed > 0 or invalid > 0
     cats = {"failures": len(result.failures), "errors": len(result.errors), "skipped": len(result.skipped)}
+    if ambiguous and not body_error:
+        return {"final": final, "cleanup_error": False, "swapped": swapped, "ambiguous": True}
+    if body_error:
+        require(cats["errors"] >= 1, "outcome", lambda: "a test whose own validate() call must raise reported %r" % cats)
+        return {"final": "error", "cleanup_error": True, "swapped": swapped}
+    if final == "pass" and assertion == "fail":
+        # the failing assertion and the deviation are two separate reports
+        require(cats["failures"] >= 1, "outcome", lambda: "the failing logging assertion was not reported: %r" % cats)
+        if cleanup_error:
+            require(cats["errors"] >= 1, "outcome", lambda: "test with a failing logging assertion AND %d unflushed tracebacks / %d invalid messages reported only %r" % (unflushed, invalid, cats))
+        return {"final": final, "cleanup_error": cleanup_error, "swapped": swapped, "assertion_failed": True}
     if final == "fail":
-        require(cats["failures"] == 1, "outcome", lambda: "failing test reported %r" % cats)
+        want_failures = 2 if assertion == "fail" else 1  # the body's failure and the logging assertion's
+        require(cats["failures"] == want_failures, "outcome", lambda: "failing test reported %r" % cats)
     elif final == "error":
         require(cats["errors"] >= 1, "outcome", lambda: "erroring test reported %r" % cats)
     elif final == "skip":
@@ -499,6 +537,10 @@ def classify_capture(case, info):
         labels.append("invalid-or-unflushed")
     if info["swapped"]:
         labels.append("test-swaps-logger")
+    if info.get("assertion_failed"):
+        labels.append("own-logging-assertion-fails")
+    if "validate" in case["steps"]:
+        labels.append("test-calls-validate-itself")
     return info["final"] != "pass" or info["cleanup_error"], labels
 
 
@@ -556,8 +598,9 @@ def deviation_strategy():
 
 def capture_strategy():
     return st.builds(
-        lambda steps, final: {"steps": steps, "final": final},
-        st.lists(st.sampled_from(["valid", "invalid", "traceback", "flush", "swap", "valid"]), max_size=5),
+        lambda assertion, steps, final: {"assertion": assertion, "steps": steps, "final": final},
+        st.sampled_from([None, None, "pass", "fail"]),
+        st.lists(st.sampled_from(["valid", "invalid", "traceback", "flush", "swap", "valid", "validate"]), max_size=5),
         st.sampled_from(["pass", "pass", "fail", "error", "skip"]),
     )
 
